@@ -101,6 +101,8 @@ class ContainerModel(amod.AssignModel):
             ci = prog.cls(cname)
             for name, fn in ci.methods.items():
                 self.fn_class[id(fn)] = cname
+                if name.startswith("_") and not name.startswith("__"):
+                    self.method_defs.setdefault((cname, name), fn)  # private helpers of can_assign
             found = prog.find_method(cname, "can_assign")
             if found is None:
                 raise AnchorError(f"{cname}.can_assign not found")
@@ -266,6 +268,8 @@ class ContainerModel(amod.AssignModel):
             return self.generic(tuple, [self.value_of(spec[1])])
         if tag == "tuple":
             return self.sequence(tuple, [(False, self.value_of(s)) for s in spec[1]])
+        if tag == "tupv":  # tuple[*prefix, *tuple[many, ...], *suffix]
+            return self.sequence(tuple, [(False, self.value_of(s)) for s in spec[1]] + [(True, self.value_of(spec[2]))] + [(False, self.value_of(s)) for s in spec[3]])
         if tag in ("dict", "map"):
             return self.generic(dict if tag == "dict" else CA.Mapping, [self.value_of(spec[1]), self.value_of(spec[2])])
         if tag == "td":
@@ -298,6 +302,13 @@ def member(o: Any, spec: Any) -> bool:
         return isinstance(o, tuple) and all(member(x, spec[1]) for x in o)
     if tag == "tuple":
         return isinstance(o, tuple) and len(o) == len(spec[1]) and all(member(x, s) for x, s in zip(o, spec[1]))
+    if tag == "tupv":
+        pre, many, suf = spec[1], spec[2], spec[3]
+        if not isinstance(o, tuple) or len(o) < len(pre) + len(suf):
+            return False
+        mid = o[len(pre):len(o) - len(suf)]
+        tail = o[len(o) - len(suf):] if suf else ()
+        return all(member(x, s) for x, s in zip(o, pre)) and all(member(x, many) for x in mid) and all(member(x, s) for x, s in zip(tail, suf))
     if tag == "dict":
         return isinstance(o, dict) and all(member(k, spec[1]) and member(v, spec[2]) for k, v in o.items())
     if tag == "map":
@@ -336,6 +347,8 @@ def spec_str(spec: Any) -> str:
         return f"tuple[{spec_str(spec[1])}, ...]"
     if tag == "tuple":
         return "tuple[" + (", ".join(spec_str(s) for s in spec[1]) or "()") + "]"
+    if tag == "tupv":
+        return "tuple[" + ", ".join([spec_str(s) for s in spec[1]] + [f"*tuple[{spec_str(spec[2])}, ...]"] + [spec_str(s) for s in spec[3]]) + "]"
     if tag in ("dict", "map"):
         return f"{'dict' if tag == 'dict' else 'Mapping'}[{spec_str(spec[1])}, {spec_str(spec[2])}]"
     if tag == "td":
@@ -387,6 +400,17 @@ def type_specs() -> Iterator[Any]:
         ("union", tuple(("lit", i) for i in range(10)) + (("list", ("cls", int)),)),
     ]
     yield from nested
+    yield from variadic_specs()
+
+
+def variadic_specs() -> Iterator[Any]:
+    """Tuples with one unpacked member: tuple[int, *tuple[str, ...]] and friends."""
+    INT, STR, OBJ = ("cls", int), ("cls", str), ("cls", object)
+    for pre, many, suf in (
+        ((INT,), STR, ()), ((INT,), INT, ()), ((), STR, (INT,)), ((), INT, (INT,)), ((INT,), STR, (INT,)), ((INT,), INT, (INT,)),
+        ((INT, STR), INT, ()), ((), INT, ()), ((OBJ,), OBJ, ()), ((INT,), OBJ, (STR,)),
+    ):
+        yield ("tupv", pre, many, suf)
 
 
 # ------------------------------------------------------------------ TypedDicts
